@@ -322,10 +322,52 @@ def skip_childless(ctx, rr):
         raise AnalysisError('R-SKIP-CHILDLESS: dfs_iter no longer has one traversal loop')
     rows = tables(ctx, u, stmts=loops[0].body, iters=1, keep=lambda n, c: n in ('append', 'can_have_child_webentities', 'has_right', 'has_left', 'has_child'))
     bad = []
-    roots = [a.targets[0].id for a in P.own(u, ast.Assign) if isinstance(a.value, ast.UnaryOp) and isinstance(a.value.op, ast.Not)
-             and isinstance(a.value.operand, ast.Name) and a.value.operand.id in u.params and isinstance(a.targets[0], ast.Name)]
+    # the from-the-root flag: a local bound before the loop from the starting-node parameter; it must be true exactly when no
+    # starting node was given (3-valued evaluation of its defining expression under "given" / "not given")
+    def ev3(e, given, prm):
+        if isinstance(e, ast.UnaryOp) and isinstance(e.op, ast.Not):
+            v = ev3(e.operand, given, prm)
+            return None if v is None else (not v)
+        if isinstance(e, ast.Name) and e.id == prm:
+            return given
+        if isinstance(e, ast.Call) and isinstance(e.func, ast.Name) and e.func.id == 'bool' and len(e.args) == 1:
+            return ev3(e.args[0], given, prm)
+        if isinstance(e, ast.Compare) and len(e.ops) == 1 and isinstance(e.left, ast.Name) and e.left.id == prm \
+                and isinstance(e.comparators[0], ast.Constant) and e.comparators[0].value is None:
+            if isinstance(e.ops[0], ast.Is):
+                return not given
+            if isinstance(e.ops[0], ast.IsNot):
+                return given
+        if isinstance(e, ast.BoolOp):
+            vals = [ev3(v, given, prm) for v in e.values]
+            if isinstance(e.op, ast.And):
+                return False if any(v is False for v in vals) else (None if any(v is None for v in vals) else True)
+            return True if any(v is True for v in vals) else (None if any(v is None for v in vals) else False)
+        if isinstance(e, ast.Constant):
+            return bool(e.value)
+        return None
+    roots = []
+    for a in P.own(u, ast.Assign):
+        if len(a.targets) == 1 and isinstance(a.targets[0], ast.Name) and a.targets[0].id not in u.params:
+            prms = [x.id for x in ast.walk(a.value) if isinstance(x, ast.Name) and x.id in u.params]
+            inloop = any(a in ast.walk(w) for w in loops)
+            if prms and not inloop:
+                from ..dataflow import test_leaves
+                tested = any(isinstance(x, ast.Name) and x.id == a.targets[0].id for w in loops for i_ in ast.walk(w) if isinstance(i_, ast.If) for x in test_leaves(i_.test))
+                if tested:
+                    roots.append((a.targets[0].id, a, prms[0]))
     if len(roots) != 1:
         raise AnalysisError('R-SKIP-CHILDLESS: dfs_iter no longer derives a from-the-root flag from its starting node')
+    flag_name, flag_def, flag_prm = roots[0]
+    v_given, v_absent = ev3(flag_def.value, True, flag_prm), ev3(flag_def.value, False, flag_prm)
+    okf = v_given is False and v_absent is True
+    rr.ob(ctx.where(u, flag_def), 'dfs_iter follows the siblings of its first node iff no starting node was given (`%s`)' % ast.unparse(flag_def)[:80], ok=okf)
+    if not okf:
+        rr.fail(ctx.finding('R-SKIP-CHILDLESS', u, flag_def, 'dfs_iter: the from-the-root flag `%s` can be %s when a starting node is given and %s when none is: a walk below an '
+                            'explicitly given node then %s' % (ast.unparse(flag_def.value)[:60], 'true' if v_given is not False else 'false', 'true' if v_absent is not False else 'false',
+                                                               'also follows the siblings of that node (pages and webentities of other subtrees are reported)' if v_given is not False
+                                                               else 'a whole-trie walk misses the siblings of the root'), stmt='dfs_iter from-root flag'))
+    roots = [flag_name]
     for r in rows:
         root = r.val.get('truthy:' + roots[0])
         S = start_atom(r)
@@ -638,6 +680,39 @@ def filter_agree(ctx, rr):
         if not okb:
             rr.fail(ctx.finding('R-FILTER-AGREE', u, lps[1], '%s: the inbound walk is an else/elif branch of the outbound one: a page that has outlinks never gets its inlinks '
                                 'reported when both are requested' % qual))
+    # ---- per page: a requested direction is walked for every page that has links in it, and only then
+    def and3(*vs):
+        return False if any(v is False for v in vs) else (None if any(v is None for v in vs) else True)
+
+    def or3(*vs):
+        return True if any(v is True for v in vs) else (None if any(v is None for v in vs) else False)
+    for qual in ('Traph.get_webentity_pagelinks_iter',):
+        u = P.unit(qual)
+        lps = _link_loops(P, u)
+        if not lps:
+            continue
+        outer = _enclosing_for(P, u, lps[0])
+        if outer is None or any(_enclosing_for(P, u, lp) is not outer for lp in lps):
+            raise AnalysisError('R-FILTER-AGREE: link loops of %s are not inside one page loop' % qual)
+        dir_of = {id(lp.iter): _loop_direction(P, u, lp) for lp in lps}
+        rows = tables(ctx, u, stmts=outer.body, iters=1, keep=lambda n, c: any(id(c) == k for k in dir_of))
+        bad = []
+        for r in rows:
+            isp = atom_val(r, '.is_page()')
+            ho, hi = atom_val(r, '.has_outlinks()'), atom_val(r, '.has_inlinks()')
+            ob, it, ib = r.val.get('truthy:include_outbound'), r.val.get('truthy:include_internal'), r.val.get('truthy:include_inbound')
+            walked = {dir_of.get(id(e.node)) for e in r.events if e.kind == 'call' and id(e.node) in dir_of}
+            for d, want in (('out', and3(isp, ho, or3(ob, it))), ('in', and3(isp, hi, ib))):
+                if d not in dir_of.values():
+                    continue
+                if want is False and d in walked:
+                    bad.append((r, '%sbound links are walked although they were not requested or the node is not a page with such links' % d))
+                if want is not False and d not in walked and r.outcome != 'again':
+                    bad.append((r, 'the %sbound links of a page are not walked although nothing the request says excludes them (an extra condition drops them)' % d))
+        rr.ob(ctx.where(u, outer), '%s: per page, outlinks are walked iff page and has_outlinks and (outbound or internal), inlinks iff page and has_inlinks and inbound (%d rows)'
+              % (qual, len(rows)), ok=not bad)
+        for r, msg in bad[:3]:
+            rr.fail(ctx.finding('R-FILTER-AGREE', u, outer, '%s: %s' % (qual, msg), detail={'row': r.show()[:400]}, stmt='%s per-page walk table: %s' % (qual, msg[:40])))
     # ---- page level
     u = P.method('Traph', 'get_page_links')
     LRU = u.call_params[0]
@@ -888,7 +963,7 @@ def topk(ctx, rr):
             return
     pushes_ = [c for c in P.own(u, ast.Call) if ast.unparse(c.func) == 'heapq.heappush']
     pops = [c for c in P.own(u, ast.Call) if ast.unparse(c.func) == 'heapq.heappop']
-    if len(pushes_) != 1 or len(pops) != 2:
+    if len(pushes_) != 1 or len(pops) not in (1, 2):
         raise AnalysisError('R-TOPK: heap usage of get_webentity_most_linked_pages_iter not recognised')
     push = pushes_[0]
     tup = push.args[1] if len(push.args) > 1 else None
@@ -968,8 +1043,10 @@ def topk(ctx, rr):
                     any(isinstance(x, ast.Subscript) and ast.unparse(x.slice).replace(' ', '') == '::-1' for x in ast.walk(u.node))
             verdict = fields_ok and backwards
     elif not loops:
-        # the result is built without emptying the heap in order: a heap's array is not sorted
-        verdict = False
+        # the result is built without emptying the heap in order: a heap's array is not sorted (unless it is sorted explicitly)
+        resort = [c for c in P.own(u, ast.Call) if (isinstance(c.func, ast.Name) and c.func.id == 'sorted') or
+                  (isinstance(c.func, ast.Attribute) and c.func.attr in ('sort', 'nlargest', 'nsmallest'))]
+        verdict = None if resort else False
     if verdict is None:
         raise AnalysisError('R-TOPK: the construction of the sorted answer of get_webentity_most_linked_pages_iter is not recognised')
     rr.ob(ctx.where(u, loops[0] if loops else u.node), 'the heap is drained minimum-first into the result from the back (non-increasing indegree)', ok=verdict)
